@@ -84,7 +84,10 @@ HbSpecs ==
   { [ct |-> 24, payload |-> <<ty>> \o BE16(Len(pay)) \o pay \o pad,
      want |-> <<[t |-> "hb", hbt |-> ty, plen |-> Len(pay), payload |-> pay]>>,
      wantp |-> 3 + Len(pay), clean |-> TRUE, kind |-> "hb"]
-    : ty \in {1, 2, 77}, pay \in {<<>>, <<7>>, <<1, 2, 3>>}, pad \in {<<>>, <<0>>, Fill(2, 16)} }
+    : ty \in {1, 2, 77}, pay \in {<<>>, <<7>>, <<1, 2, 3>>},
+      pad \in {<<>>, <<0>>, Fill(2, 16),
+               (* padding is opaque, also when it looks like another heartbeat message or a record header *)
+               <<1, 0, 0>>, <<2, 0, 1, 9>>, <<1, 0, 2, 5, 6, 2, 0, 0, 1, 0, 1, 7>>, <<24, 3, 3, 0, 3, 1, 0, 0>>, <<1, 0, 13>> \o Fill(3, 16)} }
   \cup { [ct |-> 24, payload |-> pl, want |-> <<>>, wantp |-> 0, clean |-> FALSE, kind |-> "hbbad"]
          : pl \in {<<>>, <<1>>, <<1, 0>>, <<1, 0, 1>>, <<1, 0, 9, 1, 2>>, <<2, 255, 255>>} }
 AppSpecs ==
